@@ -283,6 +283,11 @@ func Scenarios() []History {
 		Ev{Name: "Respond", Signer: "p2", Rid: rid(1, 2, 6, 1), Kind: "bad"},
 		eb(1), eb(1), eb(1), eb(1), eb(1), eb(1), eb(1), eb(1),
 	)
+	// ... and once more without the repair: a timeout above the frequency is refused, the cadence goes on as it was
+	ops = append(ops,
+		Ev{Name: "UpdateContext", Signer: "c1", ID: 1, Timeout: 8},
+		eb(1), eb(1), eb(1), eb(1), eb(1), eb(1), eb(1), eb(1), eb(1),
+	)
 	add("timeout-update-in-flight", smallParams(), nil, ops...)
 
 	// bindings that change while requests are pending: disabled by the owner, re-priced while disabled, topped up
